@@ -31,8 +31,8 @@ theorem natDigits_ge {n : Nat} (h : 10 ≤ n) :
 theorem natDigits_ne_nil (n : Nat) : natDigits n ≠ [] := by
   simp [natDigits]
 
-theorem natDigits_length (n : Nat) : (natDigits n).length = decDigits n := by
-  simp [natDigits, decDigits]
+theorem natDigits_length (n : Nat) : (natDigits n).length = decDigitCount n := by
+  simp [natDigits, decDigitCount]
 
 theorem natDigits_all (n : Nat) : (natDigits n).all isDigitR = true := by
   induction n using Nat.strongRecOn with
@@ -711,8 +711,8 @@ theorem f32BitsNat_mono {num num' den : Nat} (hn : 0 < num) (hd : 0 < den) (h : 
 /-! ### decimal magnitude -/
 
 theorem decDigits_bounds {m : Nat} (hm : 0 < m) :
-    10 ^ (decDigits m - 1) ≤ m ∧ m < 10 ^ decDigits m := by
-  unfold decDigits
+    10 ^ (decDigitCount m - 1) ≤ m ∧ m < 10 ^ decDigitCount m := by
+  unfold decDigitCount
   have hpos : 0 < (Nat.toDigits 10 m).length := Nat.length_toDigits_pos
   constructor
   · by_cases h1 : (Nat.toDigits 10 m).length - 1 = 0
